@@ -55,23 +55,54 @@ def frf(x):
 # 1e-15 (asserted below) - so the model's tables are small exact rationals in both regimes.
 
 
+LN2 = math.log(2)
+EXPKEY = {"theta": "pexp", "qtheta": "qexp"}
+
+
+def _exps(case, key, j):
+    """extreme-magnitude regime: binary exponents added to the logits (x ln 2), same nesting as case[key][j]; None = absent.
+    Bernoulli: odds a/(16-a) * 2^e; categorical: weights a_c/16 * 2^e_c (renormalised) - still exact rationals."""
+    e = case.get(EXPKEY.get(key, ""))
+    return None if e is None else e[j]
+
+
 def _theta_value(case, key, j):
     """float64 parameter values of batch element j, same nesting as case[key][j]"""
     raw = case[key][j]
+    ex = _exps(case, key, j)
     if case["param"] == "probs":
+        assert ex is None
         return [[x / 16 for x in r] for r in raw] if case["dtype"] != "bern" else [x / 16 for x in raw]
     if case["dtype"] == "bern":
-        return [math.log(x / (16 - x)) for x in raw]
+        return [math.log(x / (16 - x)) + (ex[i] * LN2 if ex else 0.0) for i, x in enumerate(raw)]
     sh = case.get("shift", 0) / 4
-    return [[math.log(x / 16) + sh for x in r] for r in raw]
+    return [[math.log(x / 16) + sh + (ex[i][c] * LN2 if ex else 0.0) for c, x in enumerate(r)] for i, r in enumerate(raw)]
+
+
+def _log_fr(q):
+    """float log of a positive Fraction of any magnitude"""
+    return math.log(q.numerator) - math.log(q.denominator)
 
 
 def _theta_tensor(case, key):
     th = torch.tensor([_theta_value(case, key, j) for j in range(case["B"])], dtype=F64)
-    if case["param"] == "logits":
+    if case["param"] == "logits" and case.get(EXPKEY.get(key, "")) is None:
         pr = torch.sigmoid(th) if case["dtype"] == "bern" else torch.softmax(th, -1)
         want = torch.tensor(case[key], dtype=F64) / 16
         assert (pr - want).abs().max() < 1e-13, "oracle: sigmoid/softmax of the chosen logits is a/16"
+    elif case["param"] == "logits":
+        # extreme probabilities: the oracle is audited in the log domain, relative to the exact rational probability
+        lp = torch.nn.functional.logsigmoid(th) if case["dtype"] == "bern" else torch.log_softmax(th, -1)
+        for j in range(case["B"]):
+            vars_, _ = _var_tables(case, key, j)
+            for i, pi in enumerate(vars_):
+                got = float(lp[j][i]) if case["dtype"] == "bern" else None
+                want = [_log_fr(x) for x in pi]
+                if case["dtype"] == "bern":
+                    assert abs(got - want[1]) < 1e-11 * (1 + abs(want[1])), "oracle: log sigmoid(logit) = log p (exact rational)"
+                else:
+                    assert max(abs(float(lp[j][i][c]) - want[c]) / (1 + abs(want[c])) for c in range(len(pi))) < 1e-11, \
+                        "oracle: log_softmax(logits) = log p (exact rational)"
     return th.clone().requires_grad_(True)
 
 
@@ -126,6 +157,10 @@ class _Table:
         self.C = torch.tensor(case[pre + "C"], dtype=F64) / 4
         self.A = torch.tensor(case[pre + "A"], dtype=F64) / 4
         self.P = torch.tensor(case[pre + "P"], dtype=F64) / 4
+        # extreme-magnitude regime (log space only): log f(b) = log(table) + fexp[b] ln 2 + lshift
+        self.S = float(case.get("lshift", 0.0)) if log else 0.0
+        fe = case.get("fexp") if (log and pre == "f") else None
+        self.E = None if fe is None else torch.tensor(fe, dtype=F64) * LN2
 
     def __call__(self, b):
         idx = _index(self.case, b, self.ind)  # [M, B]
@@ -136,7 +171,12 @@ class _Table:
             ij = idx[..., j]
             out.append(self.C[j][ij] + (self.A[j][ij] * thf[j]).sum(-1) + self.P[j][ij] * self.phi)
         r = torch.stack(out, -1)
-        return r.log() if self.log else r
+        if not self.log:
+            return r
+        r = r.log()
+        if self.E is not None:
+            r = r + torch.stack([self.E[j][idx[..., j]] for j in range(B)], -1)
+        return r + self.S
 
 
 def _table_fr(case, pre, j):
@@ -148,6 +188,10 @@ def _table_fr(case, pre, j):
     C, A, P = case[pre + "C"][j], case[pre + "A"][j], case[pre + "P"][j]
     vals = [(Fr(C[o]) + sum(Fr(A[o][k]) * th[k] for k in range(len(th))) + Fr(P[o]) * phi) / 4 for o in range(len(C))]
     ders = [[Fr(A[o][k], 4) for o in range(len(C))] for k in range(len(th))] + [[Fr(P[o], 4) for o in range(len(C))]]
+    if pre == "f" and case.get("fexp") is not None and case.get("is_log"):
+        sc = [Fr(2) ** e for e in case["fexp"][j]]   # the linear-space table the log-space estimate stands for (lshift removed)
+        vals = [v * c for v, c in zip(vals, sc)]
+        ders = [[d * c for d, c in zip(row, sc)] for row in ders]
     return vals, ders
 
 
@@ -163,11 +207,15 @@ def _var_tables(case, key, j):
     normalisation probs / probs.sum(); logits: sigmoid / softmax)."""
     n, V = case["n"], case["V"]
     raw = case[key][j]
+    ex = _exps(case, key, j)
     vars_, K = [], len(_flat(raw))
     dvars = [[] for _ in range(K)]
     for i in range(n):
         if case["dtype"] == "bern":
             p1 = Fr(raw[i], 16)
+            if ex:
+                w1 = Fr(raw[i]) * Fr(2) ** ex[i]
+                p1 = w1 / (w1 + 16 - raw[i])
             pi = [1 - p1, p1]
             for k in range(K):
                 if k != i:
@@ -178,6 +226,9 @@ def _var_tables(case, key, j):
                     dvars[k].append([-p1 * (1 - p1), p1 * (1 - p1)])
         else:
             pi = [Fr(x, 16) for x in raw[i]]
+            if ex:
+                w = [Fr(x, 16) * Fr(2) ** e for x, e in zip(raw[i], ex[i])]
+                pi = [x / sum(w) for x in w]
             for k in range(K):
                 vi, c0 = divmod(k, V)
                 if vi != i:
@@ -204,6 +255,7 @@ def est_run_impl(case):
     th = _theta_tensor(case, "theta")
     phi = torch.tensor(case["phi"] / 4, dtype=F64, requires_grad=True)
     is_log = case.get("is_log", False)
+    S = float(case.get("lshift", 0.0)) if is_log else 0.0
     f = _Table(case, "f", th, phi, log=is_log)
     params = [th, phi]
     res = {"out": [], "exc": None}
@@ -216,7 +268,7 @@ def est_run_impl(case):
                 allb = _sample_tensor(case, list(range(nout)), B)
                 cvm = (dist.log_prob(allb).exp() * _Table(case, "c", th, phi)(allb)).sum(0)
                 if is_log:
-                    cvm = cvm.log()
+                    cvm = cvm.log() + S
             est = E.DirectEstimator(dist, f, M, cv, cvm, is_log=is_log)
             allb = _sample_tensor(case, list(range(nout)), B)
             res["ell"] = dist.log_prob(allb).detach().T.tolist()
@@ -239,12 +291,20 @@ def est_run_impl(case):
             est = E.ImportanceSamplingEstimator(dist, f, M, dens, case["self_norm"], is_log=is_log)
         else:
             raise ValueError(kind)
+        vs = []
         for tup in itertools.product(range(nout), repeat=M):
             s = _sample_tensor(case, tup, B)
             dist.sample = lambda shape=torch.Size(), _s=s: _s
-            v = est().reshape(B)  # (is_log returns [1, B]: keepdim of the running maximum)
+            vs.append(est().reshape(B))  # (is_log returns [1, B]: keepdim of the running maximum)
+        res["kscale"] = _log_units(case, vs, S, B) if is_log else [0] * B
+        unit = torch.tensor(res["kscale"], dtype=F64) * LN2
+        for v in vs:
             if is_log:
-                v = v.exp()
+                # log E[exp(lf)] with lf = log(table) + lshift equals log E[table] + lshift exactly: the shift is removed in
+                # float64 (v and lshift agree to ~1e-13 relative) and the linear-space model judges exp(v - lshift); in the
+                # extreme regime a further power of two 2^k (k ln 2 subtracted before exp, tables divided by 2^k in
+                # est_terms) keeps the exponential inside the float range when log-weights span > 700 nats
+                v = (v - S - unit).exp()
             row = []
             for j in range(B):
                 gs = torch.autograd.grad(v[j], params, retain_graph=True, allow_unused=True)
@@ -255,6 +315,40 @@ def est_run_impl(case):
     except Exception as e:  # no exception is a legal outcome here
         res["exc"] = exc_kind(e) + ": " + str(e)[:200]
     return res
+
+
+def _is_extreme(case):
+    return any(case.get(k) is not None for k in ("lshift", "fexp", "pexp", "qexp"))
+
+
+def _exp2(x):
+    """binary exponent k with 2^(k-1) <= |x| < 2^k (0 for x = 0)"""
+    x = Fr(x)
+    if x == 0:
+        return 0
+    k = abs(x.numerator).bit_length() - x.denominator.bit_length()
+    return k + 1 if abs(x) >= Fr(2) ** k else k
+
+
+def frs(x, k):
+    """exact rational value of the float x scaled by 2^-k, kept on the grid 2^-60 (the unit is the scale, below)"""
+    x = float(x)
+    if not math.isfinite(x):
+        raise ValueError("non-finite")
+    return Fr(round(Fr(x) * Fr(2) ** (60 - k)), 2 ** 60)
+
+
+def _scaled(qs, k):
+    return [q / Fr(2) ** k for q in qs]
+
+
+def _log_units(case, vs, S, B):
+    """per batch element: k with 2^k ~ the largest linear-space estimate exp(v - lshift) over the sample tuples (extreme regime
+    only; 0 otherwise and whenever an estimate is not finite - that is reported by the caller)"""
+    if not _is_extreme(case):
+        return [0] * B
+    top = torch.stack([v.detach() for v in vs]).max(0).values
+    return [int(round((float(top[j]) - S) / LN2)) if math.isfinite(float(top[j])) else 0 for j in range(B)]
 
 
 def _finite(res):
@@ -279,7 +373,13 @@ def est_terms(case, res):
             ell = [Fr(round(x * 1024), 1024) for x in res["ell"][j]]
         else:
             qvars, dqvars = _var_tables(case, "qtheta", j)
-        for d in range(ndir):
+        dirs = list(range(ndir))
+        if _is_extreme(case) and ndir > 3:
+            # one direction of each kind per batch element (chosen by the case, not by the outcome): the exact rational
+            # model is costly at these magnitudes
+            pick = (sum(_flat(case["fC"][j])) + j) % K
+            dirs = [pick, K] + ([K + 1 + (pick + 1) % K] if ndir > K + 1 else [])
+        for d in dirs:
             # direction d: theta_j[d] (d < K), phi (d == K), qtheta_j[d-K-1] (IS only)
             if d < K:
                 dv, fd, which, off = dvars[d], fders[d], 1, j * K + d
@@ -287,22 +387,45 @@ def est_terms(case, res):
                 dv, fd, which, off = _zero_like(dvars[0]), fders[K], 2, 0
             else:
                 dv, fd, which, off = _zero_like(dvars[0]), [Fr(0)] * len(fval), 3, j * K + (d - K - 1)
-            impl = [(frf(row[j][0]), frf(row[j][which][off])) for row in res["out"]]
-            if kind == "direct":
-                cd = cders[d] if d <= K else [Fr(0)] * len(cval)
-                model = (f"direct_all {cn(M)} {cb(case['cv'])} {cllq(vars_)} {cllq(dv)} {clq(fval)} {clq(fd)} "
-                         f"{clq(cval)} {clq(cd)} {clq(ell)}")
-                mt.append(f"check_all {cq(TOL)} ({model}) {cld(impl)}")
-                st.append(f"unbiased_okb {cq(TOL)} {cn(M)} (mkjoint {cllq(vars_)} {cllq(dv)}) "
-                          f"(mkjoint {cllq(vars_)} {cllq(dv)}) (combine {clq(fval)} {clq(fd)}) {cld(impl)}")
+            if _is_extreme(case):
+                # Extreme magnitudes: value and gradient are homogeneous of degree one in the tables (f, cv), so tables and
+                # implementation outputs are divided by one power of two per comparison, which turns the relative-to-itself
+                # tolerance of dclose into |error| <= 1e-8 * UNIT.  UNIT = the largest estimate over the sample tuples for
+                # the per-tuple comparison with the model (autograd's own d log p = delta - p cancels to u64 * |estimate|
+                # when p ~ 1, so a gradient entry is only known relative to the estimate it belongs to), and the exact
+                # expectation for the space average (each tuple's error enters weighted by its probability).
+                kj = res["kscale"][j]   # the outputs already carry the factor 2^-kj
+                km = kj + _exp2(max(abs(Fr(row[j][0])) for row in res["out"]))
+                joint = [math.prod(c) for c in itertools.product(*vars_)]
+                ks = _exp2(sum(p_ * f_ for p_, f_ in zip(joint, fval)))
             else:
-                dq = dqvars[d - K - 1] if d > K else (dqvars[d] if shared and d < K else _zero_like(dqvars[0]))
-                model = (f"importance_all {cn(M)} {cb(case['self_norm'])} {cllq(vars_)} {cllq(dv)} {cllq(qvars)} "
-                         f"{cllq(dq)} {clq(fval)} {clq(fd)}")
-                mt.append(f"check_all {cq(TOL)} ({model}) {cld(impl)}")
-                if not case["self_norm"]:
-                    st.append(f"unbiased_okb {cq(TOL)} {cn(M)} (mkjoint {cllq(vars_)} {cllq(dv)}) "
-                              f"(mkjoint {cllq(qvars)} {cllq(dq)}) (combine {clq(fval)} {clq(fd)}) {cld(impl)}")
+                kj, km, ks = 0, None, None
+            for which_t, k in (("model", km), ("spec", ks)):
+                if k is None:
+                    impl = [(frf(row[j][0]), frf(row[j][which][off])) for row in res["out"]]
+                    fv, fdd = fval, fd
+                else:
+                    impl = [(frs(row[j][0], k - kj), frs(row[j][which][off], k - kj)) for row in res["out"]]
+                    fv, fdd = _scaled(fval, k), _scaled(fd, k)
+                if kind == "direct":
+                    cd = cders[d] if d <= K else [Fr(0)] * len(cval)
+                    cv_, cd_ = (cval, cd) if k is None else (_scaled(cval, k), _scaled(cd, k))
+                    if which_t == "model":
+                        model = (f"direct_all {cn(M)} {cb(case['cv'])} {cllq(vars_)} {cllq(dv)} {clq(fv)} {clq(fdd)} "
+                                 f"{clq(cv_)} {clq(cd_)} {clq(ell)}")
+                        mt.append(f"check_all {cq(TOL)} ({model}) {cld(impl)}")
+                    else:
+                        st.append(f"unbiased_okb {cq(TOL)} {cn(M)} (mkjoint {cllq(vars_)} {cllq(dv)}) "
+                                  f"(mkjoint {cllq(vars_)} {cllq(dv)}) (combine {clq(fv)} {clq(fdd)}) {cld(impl)}")
+                else:
+                    dq = dqvars[d - K - 1] if d > K else (dqvars[d] if shared and d < K else _zero_like(dqvars[0]))
+                    if which_t == "model":
+                        model = (f"importance_all {cn(M)} {cb(case['self_norm'])} {cllq(vars_)} {cllq(dv)} {cllq(qvars)} "
+                                 f"{cllq(dq)} {clq(fv)} {clq(fdd)}")
+                        mt.append(f"check_all {cq(TOL)} ({model}) {cld(impl)}")
+                    elif not case["self_norm"]:
+                        st.append(f"unbiased_okb {cq(TOL)} {cn(M)} (mkjoint {cllq(vars_)} {cllq(dv)}) "
+                                  f"(mkjoint {cllq(qvars)} {cllq(dq)}) (combine {clq(fv)} {clq(fdd)}) {cld(impl)}")
     return mt, st
 
 
@@ -320,6 +443,7 @@ def enum_run_impl(case):
     B = case["B"]
     phi = torch.tensor(case["phi"] / 4, dtype=F64, requires_grad=True)
     res = {"out": [], "exc": None}
+    is_log = bool(case.get("is_log", False)) and case["dtype"] != "srswor"
     try:
         if case["dtype"] == "srswor":
             T, L, O = case["total"], case["given"], case.get("out_size")
@@ -339,9 +463,14 @@ def enum_run_impl(case):
         else:
             th = _theta_tensor(case, "theta")  # [B, 1] or [B, 1, V]
             dist = _mkdist(case, th[:, 0], independent=False)
-            f = _Table(case, "f", th, phi, independent=False)
-        est = E.EnumerateEstimator(dist, f)
+            f = _Table(case, "f", th, phi, independent=False, log=is_log)
+        est = E.EnumerateEstimator(dist, f, is_log=is_log) if is_log else E.EnumerateEstimator(dist, f)
         v = est()
+        res["kscale"] = [0] * B
+        if is_log:
+            S = float(case.get("lshift", 0.0))
+            res["kscale"] = _log_units(case, [v.reshape(B)], S, B)
+            v = (v.reshape(B) - S - torch.tensor(res["kscale"], dtype=F64) * LN2).exp()
         for j in range(B):
             gs = torch.autograd.grad(v[j], [th, phi], retain_graph=True, allow_unused=True)
             gs = [torch.zeros_like(p) if g is None else g for g, p in zip(gs, [th, phi])]
@@ -370,9 +499,16 @@ def enum_terms(case, res):
             fval, fders = _table_fr(case, "f", j)
         for d in range(K + 1):
             dv = dvars[d] if d < K else _zero_like(vars_)
-            impl = (frf(res["out"][j][0]), frf(res["out"][j][1][j * K + d] if d < K else res["out"][j][2][0]))
+            gj = res["out"][j][1][j * K + d] if d < K else res["out"][j][2][0]
+            if _is_extreme(case):   # unit = the estimate itself (see est_terms)
+                kj = res["kscale"][j]
+                k = kj + _exp2(Fr(res["out"][j][0]))
+                impl = (frs(res["out"][j][0], k - kj), frs(gj, k - kj))
+                fv, fdd = _scaled(fval, k), _scaled(fders[d], k)
+            else:
+                impl, fv, fdd = (frf(res["out"][j][0]), frf(gj)), fval, fders[d]
             mt.append(f"dclose {cq(tol)} (enumerate_est (mkjoint {cllq(vars_)} {cllq(dv)}) "
-                      f"(combine {clq(fval)} {clq(fders[d])})) {cdual(impl)}")
+                      f"(combine {clq(fv)} {clq(fdd)})) {cdual(impl)}")
     return mt, []  # the estimate is unique: a disagreement with the (proved exact) model is the failure
 
 
@@ -417,15 +553,19 @@ def _relaxed_dist(case, th):
 class _CV:
     """control variate on relaxed samples: eta * sum_c w_c sigma(z / temp)_c  (REBAR-like), per batch element"""
 
-    def __init__(self, case, eta):
-        self.case, self.eta = case, eta
+    def __init__(self, case, eta, log=False, base=0.0):
+        self.case, self.eta, self.log, self.base = case, eta, log, base
         self.w = torch.tensor(case["cw"], dtype=F64) / 4  # [B] or [B, V]
         self.temp = case["temp"] / 4
+        self.S = float(case.get("lshift", 0.0)) if log else 0.0
 
     def __call__(self, z):
         if self.case["dtype"] == "bern":
-            return self.eta * self.w * torch.sigmoid(z / self.temp)
-        return self.eta * (self.w * torch.softmax(z / self.temp, -1)).sum(-1)
+            r = self.base + self.eta * self.w * torch.sigmoid(z / self.temp)
+        else:
+            r = self.base + self.eta * (self.w * torch.softmax(z / self.temp, -1)).sum(-1)
+        # log space (is_log=True): the estimator is handed log-values; positive by construction of the case
+        return r.log() + self.S if self.log else r
 
 
 def relaxed_run_impl(case):
@@ -439,22 +579,30 @@ def relaxed_run_impl(case):
     shape = (M, B) if case["dtype"] == "bern" else (M, B, V)
     u = (torch.tensor(case["u"], dtype=F64) / 64).reshape(shape)
     v = (torch.tensor(case["v"], dtype=F64) / 64).reshape(shape)
-    f = _Table(case, "f", th, phi, independent=False)
+    is_log = bool(case.get("is_log", False))
+    S = float(case.get("lshift", 0.0)) if is_log else 0.0
+    f = _Table(case, "f", th, phi, independent=False, log=is_log)
     params = [th, phi, eta]
     res = {"exc": None}
     try:
         dist = _relaxed_dist(case, th)
         if case["kind"] == "st":
-            est = E.StraightThroughEstimator(dist, f, M)
+            est = E.StraightThroughEstimator(dist, f, M, is_log=is_log)
+            script = [u]
+        elif case["kind"] == "reparam":
+            # ReparameterizationEstimator on the relaxed sample itself: func(z) = base + eta * w . sigma(z / temp) (> 0)
+            est = E.ReparameterizationEstimator(dist, _CV(case, eta, log=is_log, base=case["base"] / 4), M, is_log=is_log)
             script = [u]
         else:
             cv = _CV(case, eta)
-            est = E.RelaxEstimator(dist, f, M, cv)
+            est = E.RelaxEstimator(dist, f, M, _CV(case, eta, log=is_log), is_log=is_log)
             script = [u, v]
         r, p1, p2 = _patched(script)
         with p1, p2:
             out = est()
         assert r.k == len(script)
+        if is_log:
+            out = (out.reshape(B) - S).exp()   # see est_run_impl: the common log-offset is removed exactly
         # the pieces, recomputed with the distribution's own methods under the same uniforms
         r, p1, p2 = _patched([u, v])
         with p1, p2:
@@ -471,6 +619,12 @@ def relaxed_run_impl(case):
             gs = [torch.zeros_like(p_) if g is None else g for g, p_ in zip(gs, params)]
             rows.append([float(out[j])] + [[float(x) for x in g.reshape(-1)] for g in gs])
         res["out"] = rows
+        if case["kind"] == "reparam":
+            fz = _CV(case, eta, base=case["base"] / 4)(z)   # linear-space values of func on the implementation's own z
+            res["fz"] = [[[float(fz[m, j])] + [[float(x) for x in (torch.zeros_like(p_) if g is None else g).reshape(-1)]
+                                                for g, p_ in zip(torch.autograd.grad(fz[m, j], params, retain_graph=True,
+                                                                                      allow_unused=True), params)]
+                          for j in range(B)] for m in range(M)]
         if case["kind"] == "relax":
             cvz, cvzc = cv(z), cv(zc)
             pieces = []
@@ -499,13 +653,18 @@ def relaxed_terms(case, res):
         K = len(_flat(case["theta"][j]))
         vars_, dvars = _var_tables(case, "theta", j)
         fval, fders = _table_fr(case, "f", j)
-        ndir = K + 2 if case["kind"] == "relax" else K + 1
+        ndir = K + 2 if case["kind"] in ("relax", "reparam") else K + 1
         for d in range(ndir):
             which, off = (1, j * K + d) if d < K else ((2, 0) if d == K else (3, 0))
             dv = dvars[d] if d < K else _zero_like(vars_)
             fd = fders[d] if d <= K else [Fr(0)] * len(fval)
             impl = (frf(res["out"][j][0]), frf(res["out"][j][which][off]))
             idx = [res["idx"][m][j] for m in range(M)]
+            if case["kind"] == "reparam":
+                # sample mean of func(z_m), value and (reparameterisation) gradient; func's duals come from autograd on func(z_m)
+                duals = [cdual((frf(res["fz"][m][j][0]), frf(res["fz"][m][j][which][off]))) for m in range(M)]
+                mt.append(f"dclose {cq(TOL)} (straight_through {cl(duals)}) {cdual(impl)}")
+                continue
             if case["kind"] == "st":
                 # value only: the gradient is the straight-through heuristic (biased by design)
                 mt.append(f"close {cq(TOL)} (fst (straight_through (map (fn (combine {clq(fval)} {clq(fd)})) "
@@ -632,13 +791,23 @@ def dist_run_impl(case):
     th = _theta_tensor(case, "theta").detach()
     if not bern and case["param"] == "probs":
         th = th * case.get("pscale", 1)  # unnormalised probabilities: the constructor divides by their sum
+    if case.get("lext") is not None:     # extreme-magnitude regime: logits moved by tens to hundreds of nats
+        assert case["param"] == "logits"
+        th = th + torch.tensor(case["lext"], dtype=F64).reshape(th.shape)
     shape = (B,) if bern else (B, V)
     res = {"exc": None}
+    if case["param"] == "logits":
+        # oracle independent of the implementation (regime T): torch's float64 kernels on the logits that were handed over
+        lg = th[:, 0] if bern else torch.log_softmax(th[:, 0], -1)
+        res["l_oracle"] = lg.tolist()
+        res["p_oracle"] = (torch.sigmoid(lg) if bern else torch.softmax(th[:, 0], -1)).tolist()
     try:
         dist = _relaxed_dist(case, th)
         u = (torch.tensor(case["u"], dtype=F64) / 64).reshape((1,) + shape)
         v = (torch.tensor(case["v"], dtype=F64) / 64).reshape((1,) + shape)
         zs = (torch.tensor(case["z"], dtype=F64) / 8).reshape((-1,) + shape)  # arbitrary relaxed points
+        if case.get("zrel"):   # ... placed relative to the location of the density (its logits)
+            zs = zs + (th[:, 0] if bern else torch.log_softmax(th[:, 0], -1))
         r, p1, p2 = _patched([u])
         with p1, p2:
             z = dist.rsample([1])
@@ -678,16 +847,30 @@ def dist_terms(case, res):
     eps = cz(round(Fr(torch.finfo(F64).eps) * FXS))
     tol = cz(TOLFX)
     mt, rel = [], []
+    feps = float(torch.finfo(F64).eps)
     for j in range(B):
         l, p = res["l"][j], res["p"][j]
+        if "l_oracle" in res:
+            # the model is fed the harness's own log_softmax / sigmoid of the given logits, and the distribution's normalised
+            # parameters are compared with them (otherwise a badly normalised `logits` would be followed by the model)
+            lo, po = res["l_oracle"][j], res["p_oracle"][j]
+            rel.append(("distribution's logits == log_softmax of the given logits (float64 oracle)",
+                        all(math.isfinite(a) and abs(a - b) <= 1e-12 * (1 + abs(b)) for a, b in zip(_flat(l), _flat(lo)))))
+            rel.append(("distribution's probs == softmax / sigmoid of the given logits (float64 oracle, relative 1e-9)",
+                        all(math.isfinite(a) and abs(a - b) <= 1e-9 * b + 1e-300 for a, b in zip(_flat(p), _flat(po)))))
+            l = lo   # (csample reads self.probs: the model gets those, just audited against the oracle)
+        # csample clamps probs into [eps, 1 - eps] first (clamp_probs): outside, its closed form is not the model's; and the
+        # fixed-point model (resolution 2^-64) divides by p and 1 - p: it keeps 1e-9 relative only while both exceed ~1e-8
+        cs_ok = all(max(feps, 1e-8) <= x <= 1 - max(feps, 1e-8) for x in _flat(p))
         u = [x / 64 for x in (case["u"][j:j + 1] if bern else case["u"][j * V:(j + 1) * V])]
         v = [x / 64 for x in (case["v"][j:j + 1] if bern else case["v"][j * V:(j + 1) * V])]
         bc = case["b"][j] if bern else case["b"][j * V:(j + 1) * V]
         if bern:
             mt.append(f"fx_close {tol} (lb_rsample FX {fx(l)} {fx(u[0])}) {fx(res['z'][j])}")
             mt.append(f"Bool.eqb (lb_threshold FX {fx(res['z'][j])}) {cb(res['b'][j] >= 0.5)}")
-            mt.append(f"fx_close {tol} (lb_csample FX {fx(p)} {fx(v[0])} {cb(res['b'][j] >= 0.5)} {eps}) {fx(res['zc_own'][j])}")
-            mt.append(f"fx_close {tol} (lb_csample FX {fx(p)} {fx(v[0])} {cb(bc >= 0.5)} {eps}) {fx(res['zc'][j])}")
+            if cs_ok:
+                mt.append(f"fx_close {tol} (lb_csample FX {fx(p)} {fx(v[0])} {cb(res['b'][j] >= 0.5)} {eps}) {fx(res['zc_own'][j])}")
+                mt.append(f"fx_close {tol} (lb_csample FX {fx(p)} {fx(v[0])} {cb(bc >= 0.5)} {eps}) {fx(res['zc'][j])}")
             mt.append(f"fx_close {tol} (lb_tlog_prob FX {fx(l)} {cb(bc >= 0.5)}) {fx(res['tlp_bc'][j])}")
             rel.append(("threshold(csample(b)) == b", res["b_of_zc_own"][j] == res["b"][j] and res["b_of_zc"][j] == bc))
             for k in range(len(res["pts"])):
@@ -703,8 +886,9 @@ def dist_terms(case, res):
         else:
             mt.append(f"fx_close_list {tol} (g_rsample FX {fxl(l)} {fxl(u)}) {fxl(res['z'][j])}")
             mt.append(f"bools_eq (g_threshold FX {fxl(res['z'][j])}) {_bl(res['b'][j])}")
-            mt.append(f"fx_close_list {tol} (g_csample FX {fxl(p)} {fxl(v)} {_bl(res['b'][j])} {eps}) {fxl(res['zc_own'][j])}")
-            mt.append(f"fx_close_list {tol} (g_csample FX {fxl(p)} {fxl(v)} {_bl(bc)} {eps}) {fxl(res['zc'][j])}")
+            if cs_ok:
+                mt.append(f"fx_close_list {tol} (g_csample FX {fxl(p)} {fxl(v)} {_bl(res['b'][j])} {eps}) {fxl(res['zc_own'][j])}")
+                mt.append(f"fx_close_list {tol} (g_csample FX {fxl(p)} {fxl(v)} {_bl(bc)} {eps}) {fxl(res['zc'][j])}")
             mt.append(f"fx_close {tol} (g_tlog_prob FX {fxl(l)} {_bl(bc)}) {fx(res['tlp_bc'][j])}")
             rel.append(("threshold(csample(b)) == b", res["b_of_zc_own"][j] == res["b"][j] and res["b_of_zc"][j] == [float(x) for x in bc]))
             for k in range(len(res["pts"])):
@@ -1096,6 +1280,162 @@ def gen_est(rng, kind=None, small=False):
     return case
 
 
+# ----------------------------------------------------------------------------------------
+# extreme-magnitude regime
+# ----------------------------------------------------------------------------------------
+LSHIFTS = [-1000, -1000, -1000, -300, 150, 700, 1000]
+
+
+def _gen_exps(rng, dtype, B, n, V, lim):
+    """binary exponents of the odds / class weights: some variables stay moderate, others move by up to `lim` octaves"""
+    def e():
+        return rng.choice([0, rng.randint(-lim, lim), rng.choice([-lim, lim]), rng.randint(-lim, -lim // 2)])
+    if dtype == "bern":
+        return [[e() for _ in range(n)] for _ in range(B)]
+    return [[[e() for _ in range(V)] for _ in range(n)] for _ in range(B)]
+
+
+def _exp_lim(rng, n, V):
+    """octaves: 300 ~ 208 nats; a single binary variable also gets 600 (log-weights log p - log q up to ~830 nats apart, beyond
+    the range of exp in float64; every is_log path works on logarithms only).  Three classes: 160 (cost of the exact model)."""
+    if V != 2:
+        return 160
+    return 300 // n if (n > 1 or rng.random() < 0.5) else 600
+
+
+def gen_est_extreme(rng, kind=None):
+    """is_log=True paths with log-values f(b) = log(table) + fexp[b] ln 2 + lshift of magnitude 1e2..1e3 (common offset down to
+    -1e3, spread of hundreds of nats between outcomes) and proposal / density log-probabilities spanning hundreds of nats
+    (logits = log-odds + e ln 2, |e| <= 300 octaves ~ 208 nats per variable).  Everything the model needs stays an exact
+    rational: table * 2^fexp, probabilities a 2^e / (a 2^e + 16 - a); the common offset is removed from the returned
+    log-estimate in float64 before it is exponentiated (see est_run_impl)."""
+    kind = kind or rng.choice(["direct", "direct", "is", "is", "is", "enum", "enum", "st", "reparam", "reparam", "relax"])
+    B = rng.choice([1, 1, 1, 2])
+    case = {"fam": "est", "kind": kind, "param": "logits", "phi": rng.randint(-8, 8), "shift": rng.randint(-6, 6), "B": B,
+            "is_log": True, "lshift": rng.choice(LSHIFTS) + rng.randint(-40, 40) / 8}
+    if kind in ("direct", "is"):
+        dtype = rng.choice(["bern", "bern", "cat", "onehot"])
+        n = rng.choice([1, 1, 2]) if dtype == "bern" else 1
+        V = 2 if dtype == "bern" else rng.choice([2, 3])
+    elif kind == "enum":
+        dtype, n = rng.choice(["bern", "cat", "onehot"]), 1
+        V = 2 if dtype == "bern" else rng.choice([2, 3])
+    else:
+        dtype, n = rng.choice(["bern", "onehot"]), 1
+        V = 2 if dtype == "bern" else rng.choice([2, 3])
+        case["param"] = rng.choice(["probs", "logits"])
+    case.update(dtype=dtype, n=n, V=V)
+    nout, K = V ** n, (n if dtype == "bern" else n * V)
+    case["theta"] = _gen_theta(rng, dtype, B, n, V)
+    _gen_table(rng, case, "f", B, nout, K, 40, 80)
+    if kind in ("direct", "is", "enum"):
+        if rng.random() < 0.6:   # log-probabilities spanning hundreds of nats; |log p - log q| stays below ~420 nats
+            case["pexp"] = _gen_exps(rng, dtype, B, n, V, _exp_lim(rng, n, V))
+    if kind in ("direct", "is"):
+        case["M"] = rng.choice([1, 2, 2]) if nout <= 4 else 1
+        if "pexp" in case and (V == 3 or n == 2):
+            case["M"] = 1   # (cost of the exact rational model: Coq's Q does not reduce fractions)
+        case["cv"] = kind == "direct" and rng.random() < 0.4
+        case["self_norm"] = kind == "is" and rng.random() < 0.4
+        _gen_table(rng, case, "c", B, nout, K, 4, 12, dep=False)
+        if kind == "is":
+            case["alias"] = rng.choice(["same", "equal", "diff", "diff", "diff"])
+            if case["alias"] == "diff":
+                case["qtheta"] = _gen_theta(rng, dtype, B, n, V)
+                if rng.random() < 0.7:
+                    case["qexp"] = _gen_exps(rng, dtype, B, n, V, _exp_lim(rng, n, V))
+                    if V == 3 or n == 2:
+                        case["M"] = 1
+            else:
+                case["qtheta"] = case["theta"]
+                if "pexp" in case:
+                    case["qexp"] = case["pexp"]
+    if kind in ("direct", "is", "enum", "st") and not case.get("cv") and rng.random() < 0.6:
+        # spread between outcomes; half of the time chosen so that p(b) f(b) is of one magnitude for every outcome
+        if "pexp" in case and rng.random() < 0.5:
+            fe = []
+            for j in range(B):
+                joint = [math.prod(c) for c in itertools.product(*_var_tables(case, "theta", j)[0])]
+                fe.append([max(-620, min(620, -round(_log_fr(q) / LN2) + rng.randint(-3, 3))) for q in joint])
+            case["fexp"] = fe
+        else:
+            case["fexp"] = [[rng.choice([0, rng.randint(-250, 250), -250, 250]) for _ in range(nout)] for _ in range(B)]
+        if kind == "direct" and case["M"] > 1:
+            # DirectEstimator clamps log f - max log f into [EPS_NINF, EPS_INF] = [-43.7, 44.4] (documented; not in the model):
+            # keep the spread inside one sample tuple below that (25 octaves = 17 nats, plus the table's own factor <= 2)
+            case["fexp"] = [[max(-25, min(25, e)) for e in row] for row in case["fexp"]]
+    if kind in ("st", "relax", "reparam"):
+        case["M"] = rng.choice([1, 2, 3])
+        m = case["M"] * B * (1 if dtype == "bern" else V)
+        case["u"] = [rng.randint(1, 63) for _ in range(m)]
+        case["v"] = [rng.randint(1, 63) for _ in range(m)]
+        case["eta"] = rng.choice([2, 4, 5])        # positive: cv / func values are exponentials of the handed log-values
+        case["temp"] = rng.choice([1, 2, 4, 6])
+        case["cw"] = [rng.randint(1, 8) for _ in range(B)] if dtype == "bern" else \
+            [[rng.randint(1, 8) for _ in range(V)] for _ in range(B)]
+        if kind == "reparam":
+            case["base"] = rng.randint(1, 12)
+            case["is_log"] = rng.random() < 0.75
+    return case
+
+
+def _dist_ext_margin_ok(case):
+    """same as _dist_margin_ok on the actual (shifted) logits: no threshold decision within 1e-6 of a tie"""
+    B, V = case["B"], case["V"]
+    for j in range(B):
+        if case["dtype"] == "bern":
+            l = math.log(case["theta"][j][0] / (16 - case["theta"][j][0])) + case["lext"][j]
+            u = case["u"][j] / 64
+            if abs(l + math.log(u) - math.log1p(-u)) < 1e-6:
+                return False
+            if any(abs(z / 8 + (l if case.get("zrel") else 0)) < 1e-6 for z in case["z"][j::B]):
+                return False
+        else:
+            ls = [math.log(a / 16) + case["shift"] / 4 + e for a, e in zip(case["theta"][j][0], case["lext"][j])]
+            mx = max(ls)
+            ls = [x - mx - math.log(sum(math.exp(y - mx) for y in ls)) for x in ls]
+            us = [x / 64 for x in case["u"][j * V:(j + 1) * V]]
+            z = sorted(l - math.log(-math.log(u)) for l, u in zip(ls, us))
+            if min(b - a for a, b in zip(z, z[1:])) < 1e-6:
+                return False
+            zz = case["z"]
+            for k in range(len(zz) // (B * V)):
+                row = sorted(x / 8 + (l if case.get("zrel") else 0) for x, l in zip(zz[(k * B + j) * V:(k * B + j + 1) * V], ls))
+                if min(b - a for a, b in zip(row, row[1:])) < 1e-6:
+                    return False
+    return True
+
+
+def gen_dist_extreme(rng):
+    """relaxed distributions with logits of magnitude 30..500 (LogisticBernoulli) / class logits up to 1000 nats apart
+    (GumbelOneHotCategorical), where exp(logits) is still finite in float64 and every closed form stays finite"""
+    while True:
+        dtype = rng.choice(["bern", "onehot"])
+        V = 2 if dtype == "bern" else rng.choice([2, 3, 4])
+        B = rng.choice([1, 2])
+        case = {"fam": "dist", "dtype": dtype, "V": V, "B": B, "n": 1, "param": "logits", "shift": rng.randint(-6, 6),
+                "pscale": 1, "zrel": rng.random() < 0.6}
+        case["theta"] = _gen_theta(rng, dtype, B, 1, V)
+        mags = [8, 12, 16, 30, 36, 40, 50, 120, 300, 500]
+        if dtype == "bern":
+            case["lext"] = [rng.choice([1, -1]) * rng.choice(mags) for _ in range(B)]
+        else:
+            case["lext"] = [[rng.choice([0, 0, 1, -1]) * rng.choice(mags) for _ in range(V)] for _ in range(B)]
+            for row in case["lext"]:
+                if not any(row):
+                    row[rng.randrange(V)] = -rng.choice(mags)
+        m = B * (1 if dtype == "bern" else V)
+        case["u"] = [rng.randint(1, 63) for _ in range(m)]
+        case["v"] = [rng.randint(1, 63) for _ in range(m)]
+        case["z"] = [rng.randint(-40, 40) for _ in range(m * rng.randint(1, 3))]
+        if dtype == "bern":
+            case["b"] = [rng.randint(0, 1) for _ in range(B)]
+        else:
+            case["b"] = _flat([[1 if c == k else 0 for c in range(V)] for k in [rng.randrange(V) for _ in range(B)]])
+        if _dist_ext_margin_ok(case):
+            return case
+
+
 def _imh_margin_ok(case):
     """no accept decision u * w_last < w_cur within 1e-4 of equality (log u is computed in float32)"""
     if case["same"]:
@@ -1260,7 +1600,7 @@ def gen_grid(rng):
 # =========================================================================================
 THEOREMS = {
     "direct": ["c19_direct_unbiased"], "is": ["c19_importance_unbiased"], "enum": ["c19_enumerate_exact"],
-    "st": ["c19_straight_through_value"], "relax": ["c19_relax_value", "c19_relax_mean_exact"],
+    "st": ["c19_straight_through_value"], "reparam": ["c19_straight_through_value"], "relax": ["c19_relax_value", "c19_relax_mean_exact"],
     "imh": ["c19_mh_accepts_all_when_equal"],
     "dist": ["c19_logistic_density_factorises", "c19_gumbel_density_factorises", "c19_logistic_threshold_of_csample",
              "c19_gumbel_threshold_of_csample"],
@@ -1285,13 +1625,13 @@ def evaluate(case):
             mt, st = enum_terms(case, res)
             return dict(model=mt, spec=st, rel=[("no exception", res["exc"] is None)], unique=True,
                         impl={"exc": res["exc"], "out": res["out"]})
-        if k in ("st", "relax"):
+        if k in ("st", "relax", "reparam"):
             res = relaxed_run_impl(case)
             mt, st = relaxed_terms(case, res)
             rel = [("no exception", res["exc"] is None)]
-            if res["exc"] is None:
+            if res["exc"] is None and k != "reparam":
                 rel += _relaxed_value_relation(case, res)
-            return dict(model=mt, spec=st, rel=rel, unique=(k == "st"), impl={"exc": res["exc"], "out": res.get("out")})
+            return dict(model=mt, spec=st, rel=rel, unique=(k != "relax"), impl={"exc": res["exc"], "out": res.get("out")})
         res = imh_run_impl(case)
         rel = []
         if case["same"]:
@@ -1459,6 +1799,16 @@ def gen_cases(chk):
         c = gen_grid(rng)
         c["stream"] = "grid"
         cases.append(c)
+    # extreme-magnitude regime (drawn after every older stream, so those keep their cases for a given seed)
+    n_xest, n_xdist = (60, 30) if quick else (400, 250)
+    for _ in range(n_xest):
+        c = gen_est_extreme(rng)
+        c["stream"] = "extreme"
+        cases.append(c)
+    for _ in range(n_xdist):
+        c = gen_dist_extreme(rng)
+        c["stream"] = "extreme"
+        cases.append(c)
     return cases
 
 
@@ -1501,6 +1851,13 @@ def run(chk, cases=None):
         for opt in ("param", "M", "B", "is_log", "cv", "self_norm", "same", "alias"):
             if opt in c:
                 chk.count(f"{opt}={c[opt]}")
+        if stream == "extreme":
+            chk.count("extreme:" + _key(c))
+            for opt in ("pexp", "qexp", "fexp", "lext", "zrel"):
+                if c.get(opt):
+                    chk.count("extreme." + opt)
+            if "lshift" in c and c.get("is_log"):
+                chk.count("extreme.lshift=%d" % (round(c["lshift"] / 100) * 100))
         if c["fam"] == "est" and c["kind"] == "imh":
             chk.count("imh_given=" + str(c["given"] is not None))
             chk.count("imh_outcome=" + ("error" if ev["impl"]["exc"] else "ok"))
